@@ -59,7 +59,7 @@ class C05(Prop):
                         acc = 1
                     out.append({'harness': 'lockstep', 'ops': s, 'method': method, 'hp': hp,
                                 'intervals': 'callable' if hp == 'callable' else 'sym', 'hook': hook, 'acc': acc,
-                                'model': model, 'clip': (i % 7 == 0 and hp == 'const' and (tier == 'thorough' or method == 'inverse')),
+                                'model': model, 'clip': (i % 7 == 0 and hp == 'const' and method == 'inverse' and acc == 1),
                                 'init': 'arbitrary'})
         return out
 
